@@ -89,7 +89,9 @@ def witness (a b : Atom) : Pkg :=
     slot := pick a.slot b.slot, subslot := pick a.subslot b.subslot, repo := pick a.repo b.repo,
     iuse := witnessIuse deps, use := witnessUse deps }
 
-/-- atoms as `atom.__init__` builds them (C04) whose version restriction is not negated -/
-def AtomOk (a : Atom) : Prop := C04.Spec.Atom.WF a ∧ a.negate = false
+/-- atoms as `atom.__init__` builds them (C04): valid version, sub-slot only with a slot; the version
+restriction is not negated; a `~` atom carries no revision ("~ … cannot be combined with a revision") -/
+def AtomOk (a : Atom) : Prop :=
+  C04.Spec.Atom.WF a ∧ a.negate = false ∧ ∀ v r, a.vop = some (Op.tilde, v, r) → natOfDigits r = 0
 
 end Pkgcore.C05.Spec
